@@ -18,9 +18,9 @@ import (
 )
 
 type cval struct {
-	known bool
-	v     constant.Value
-	isNil bool // the nil constant of a pointer/interface/slice type
+	known  bool
+	v      constant.Value
+	isNil  bool // the nil constant of a pointer/interface/slice type
 	nonNil bool // known to be non-nil (fresh allocation, fmt.Errorf result, ...)
 	// fields: a struct value, by field index (entries may be unknown)
 	fields map[int]cval
@@ -42,9 +42,9 @@ type Folder struct {
 	// Protocol() call, a field load). Return ok=false for everything else.
 	Assume func(v ssa.Value) (cval, bool)
 	// Stop ends a path successfully at an instruction (outcome.Stopped).
-	Stop     func(in ssa.Instruction) bool
+	Stop func(in ssa.Instruction) bool
 	// OnCall observes every evaluated call with its folded arguments.
-	OnCall   func(call *ssa.Call, args []cval)
+	OnCall func(call *ssa.Call, args []cval)
 	// OnStore observes every store of the function under evaluation (not of
 	// folded callees) with the folded value.
 	OnStore func(st *ssa.Store, v cval)
@@ -791,7 +791,6 @@ func addrKey(env fenv, f *Folder, addr ssa.Value) string {
 	return ""
 }
 
-
 // loadStruct: the value of a local struct variable assembled from what the
 // evaluation stored into it (as a whole or field by field).
 func loadStruct(mem map[string]cval, addr ssa.Value) (cval, bool) {
@@ -852,7 +851,6 @@ func fieldsKey(fs map[int]cval) string {
 	sb.WriteString("}")
 	return sb.String()
 }
-
 
 // globalMap returns the contents of a package-level map variable that is
 // built once by its initialiser with constant keys and constant (or constant
